@@ -16,7 +16,7 @@ CONSTANTS MaxElems
 
 ElemKinds == {"plain", "star", "dstar", "kw"}
 \* contexts whose slots form a sequence
-SeqCtx == {"list", "tuple", "set", "dict", "call", "method", "dotcall", "get", "cut", "op-add", "op-and", "op-le",
+SeqCtx == {"list", "tuple", "set", "dict", "call", "method", "method-pre", "dotcall", "get", "cut", "op-add", "op-and", "op-le",
            "bases", "decorators", "except-types", "setv-target"}
 \* contexts with exactly one slot
 OneCtx == {"if-test", "with-manager", "return", "assert", "raise", "setv-value", "not", "fstring-field", "lfor-iter", "while-test"}
@@ -38,6 +38,11 @@ Base(c, k) ==
     [] c \in {"call", "method", "dotcall", "bases"} ->
          (CASE k = "plain" -> "argument" [] k = "star" -> "starred argument"
             [] k = "dstar" -> "keyword unpacking" [] k = "kw" -> "keyword argument")
+    \* (.m ARGS.. obj): keyword arguments and mapping unpackings may precede the object of a method call;
+    \* a plain form there is itself the object (and obj an argument); an iterable unpacking cannot be one
+    [] c = "method-pre" ->
+         (CASE k = "plain" -> "the object, or an argument" [] k = "kw" -> "keyword argument"
+            [] k = "dstar" -> "keyword unpacking" [] k = "star" -> "none")
     [] c = "get" ->
          (CASE k = "plain" -> "subscript" [] k = "star" -> "fallback" [] k = "kw" -> "subscript"
             [] k = "dstar" -> "none")
@@ -85,16 +90,21 @@ WellFormed ==
   \* Python allows one starred target per assignment
   /\ (ctx = "setv-target" => Cardinality({i \in 1..Len(elems) : elems[i] = "star"}) <= 1)
 
+\* the construct of the i-th element: in (.m ARGS.. obj) everything after the first plain form (which is
+\* the object) is an ordinary argument
+CAt(i) ==
+  IF ctx = "method-pre" /\ (\E j \in 1..(i - 1) : elems[j] = "plain") THEN Construct("method", elems[i])
+  ELSE Construct(ctx, elems[i])
 \* what must happen to the program
 Expect ==
-  IF \E i \in 1..Len(elems) : Construct(ctx, elems[i]) = "none" THEN "error"
-  ELSE IF \E i \in 1..Len(elems) : Construct(ctx, elems[i]) = "open" THEN "either"
+  IF \E i \in 1..Len(elems) : CAt(i) = "none" THEN "error"
+  ELSE IF \E i \in 1..Len(elems) : CAt(i) = "open" THEN "either"
   ELSE "kept"
 
 \* ---- laws
 \* Python's grammar: a mapping unpacking exists only in dict displays and calls (class headers are calls)
 DstarOnlyInDictAndCalls ==
-  \A c \in Ctx : Base(c, "dstar") \notin {"none", "open"} => c \in {"dict", "call", "method", "dotcall", "bases"}
+  \A c \in Ctx : Base(c, "dstar") \notin {"none", "open"} => c \in {"dict", "call", "method", "method-pre", "dotcall", "bases"}
 \* a plain form has a place everywhere
 PlainEverywhere == \A c \in Ctx : Base(c, "plain") \notin {"none", "open"}
 \* no context is all-open: every context decides something
@@ -103,5 +113,5 @@ Decides == \A c \in Ctx : \E k \in ElemKinds : Base(c, k) # "open"
 FallbackOnlyShadowed == \A c \in Ctx : (Base(c, "star") = "fallback") = (c \in Shadowed)
 
 Export == WellFormed => PrintT(<<"PROG", ToJson([ctx |-> ctx, elems |-> elems, expect |-> Expect,
-                                                 constructs |-> [i \in 1..Len(elems) |-> Construct(ctx, elems[i])]])>>)
+                                                 constructs |-> [i \in 1..Len(elems) |-> CAt(i)]])>>)
 =============================================================================
